@@ -8,6 +8,8 @@ if [ -n "$(git status --porcelain)" ]; then echo "/repo not clean"; exit 2; fi
 git apply "$patch" || { echo "patch does not apply"; exit 2; }
 GOFLAGS=-mod=mod GOPROXY=off GOSUMDB=off go build ./... || { echo "does not build"; git checkout -- .; exit 2; }
 cd /verif
+# the evidence files must keep describing the unchanged tree: runs on a mutated tree write to a scratch copy and are undone
+rm -rf /verif/.work/evidence_keep && cp -r /verif/evidence /verif/.work/evidence_keep
 for p in "$@"; do
   out=$(timeout 3000 ./check "$p" --tier quick 2>&1)
   rc=$?
@@ -22,3 +24,4 @@ git -C /repo checkout -- .
 # the generated facts must describe the restored tree again
 /verif/.work/bin/extract /repo /verif/go/extract/targets.txt /verif/lean/ShmVerif/Gen >/dev/null 2>&1
 rm -rf /verif/replays
+rm -rf /verif/evidence && mv /verif/.work/evidence_keep /verif/evidence
